@@ -13,7 +13,7 @@ RULE = ("model: explicit clock; TimeoutExact (nobody waits past its deadline, a 
 
 
 def run(tier):
-    return L.run_lane("C12", tier, MC[tier], PROFILES[tier], RULE, scripts=SCRIPTS[tier], selftests=[("drop-tick", L.corrupt_time, "time")])
+    return L.run_lane("C12", tier, MC[tier], PROFILES[tier], RULE, scripts=SCRIPTS[tier], selftests=[("timeout-one-tick-longer", L.corrupt_time, "time")])
 
 
 def replay(path):
